@@ -8,16 +8,18 @@
 (* matched package.                                                            *)
 EXTENDS Integers, Sequences, TLC, Json
 Trace == ndJsonDeserialize("trace.ndjson")
-VARIABLES out, cnt, l
+VARIABLES out, cnt, seen, l
 E == Trace[l]
 Is(ev) == l <= Len(Trace) /\ E.ev = ev
 Put(f, k, v) == [x \in DOMAIN f \cup {k} |-> IF x = k THEN v ELSE f[x]]
-Init == TLCSet(1, 0) /\ out = <<>> /\ cnt = 0 /\ l = 1
+Init == TLCSet(1, 0) /\ out = <<>> /\ cnt = 0 /\ seen = {} /\ l = 1
 Result == /\ Is("result")
           /\ IF E.pkg \in DOMAIN out THEN out[E.pkg] = <<E.hash, E.errs>> /\ UNCHANGED out
              ELSE out' = Put(out, E.pkg, <<E.hash, E.errs>>)
-          /\ cnt' = cnt + 1 /\ l' = l + 1
-RunEnd == Is("runend") /\ cnt = E.n /\ cnt' = 0 /\ l' = l + 1 /\ UNCHANGED out
+          /\ cnt' = cnt + 1 /\ seen' = seen \cup {E.pkg} /\ l' = l + 1
+\* exactly one result per matched package, and for exactly the matched packages
+RunEnd == /\ Is("runend") /\ cnt = E.n /\ seen = {E.pkgs[k] : k \in 1..Len(E.pkgs)}
+          /\ cnt' = 0 /\ seen' = {} /\ l' = l + 1 /\ UNCHANGED out
 Next == Result \/ RunEnd
 HighWater == TLCSet(1, IF l > TLCGet(1) THEN l ELSE TLCGet(1))
 Accepted == /\ PrintT(<<"H", ToString(TLCGet(1))>>)
